@@ -66,6 +66,21 @@ def _expand(fi, e, depth=0):
     return norm(e)
 
 
+def _iter_text(fi, it):
+    """what a for statement iterates over, with list()/sorted()/tuple()/.keys()/.items() wrappers removed and hoisted
+    locals expanded"""
+    while True:
+        if isinstance(it, ast.Call) and isinstance(it.func, ast.Name) and it.func.id in ("list", "sorted", "tuple", "set") and len(it.args) == 1:
+            it = it.args[0]
+        elif isinstance(it, ast.Call) and isinstance(it.func, ast.Attribute) and it.func.attr in ("keys", "items") and not it.args:
+            it = it.func.value
+        else:
+            break
+    if isinstance(it, (ast.Name, ast.Subscript, ast.Attribute)):
+        return _expand(fi, it)
+    return norm(it)
+
+
 def _in_keyerror_try(fi, node):
     q = getattr(node, "_parent", None)
     while q is not None and q is not fi.node:
@@ -110,7 +125,7 @@ def _user_keys(r, p, reach):
             loopkey = False
             q = getattr(x, "_parent", None)
             while q is not None and q is not fi.node:
-                if isinstance(q, ast.For) and any(isinstance(y, ast.Name) and y.id in {z.id for z in ast.walk(x.slice) if isinstance(z, ast.Name)} for y in ast.walk(q.target)) and any(m in _expand(fi, q.iter) if isinstance(q.iter, (ast.Name, ast.Subscript, ast.Attribute)) else any(m in norm(q.iter) for m in _USER_MAPS) for m in _USER_MAPS):
+                if isinstance(q, ast.For) and any(isinstance(y, ast.Name) and y.id in {z.id for z in ast.walk(x.slice) if isinstance(z, ast.Name)} for y in ast.walk(q.target)) and any(m in _iter_text(fi, q.iter) for m in _USER_MAPS):
                     loopkey = True
                 q = getattr(q, "_parent", None)
             if loopkey:
